@@ -12,6 +12,7 @@ import AcnProofs.Lemmas.SessionsFit
 import AcnProofs.Lemmas.SessionsCharge
 import AcnProofs.Lemmas.SessionsBisect
 import AcnProofs.Lemmas.SessionsMinimal
+import AcnProofs.Lemmas.SessionsMaximal
 import Mathlib.Tactic
 
 namespace Acn.C15
@@ -279,6 +280,80 @@ theorem same_period_session_kept :
     rw [pyTrunc_nonneg (by norm_num [exDoc2])]; norm_num [exDoc2, Int.floor_eq_iff]
   rw [hd, capDeparture_none, ha, h1, h2]
 
+/-- Exactly when a converted session is non-degenerate: `arrival < departure` iff the connection and
+    disconnection instants fall in different periods and `max_len`, if given, is at least 1. -/
+theorem arrival_lt_departure_iff (d : Doc K) (offset : Int) (period V mp : K) (maxLen : Option Int)
+    (bp : BattParams K) (ff : Bool) (e : Ev K) (hp : 0 < period)
+    (h : convertDoc d offset period V mp maxLen bp ff = .ok e) :
+    e.arrival < e.departure ↔
+      pyTrunc (d.connect / (60 * period)) < pyTrunc (d.disconnect / (60 * period)) ∧
+      ∀ L, maxLen = some L → 0 < L := by
+  obtain ⟨ha, hd, -⟩ := convertDoc_ok hp h
+  rw [hd, ha]
+  cases maxLen with
+  | none => simp only [capDeparture]; constructor
+            · intro h'; exact ⟨by omega, by intro L hL; cases hL⟩
+            · intro h'; omega
+  | some L =>
+    simp only [capDeparture]
+    split
+    · constructor
+      · intro h'; refine ⟨by omega, ?_⟩; intro L' hL'; injection hL' with hL'; omega
+      · intro h'; have := h'.2 L rfl; omega
+    · constructor
+      · intro h'; refine ⟨by omega, ?_⟩; intro L' hL'; injection hL' with hL'; omega
+      · intro h'; omega
+
+/-- What `generate_events` hands to the simulator, against the hypotheses `Valid` of C01
+    (`Lemmas/EventCoreInv.lean`): for documents with `start ≤ connect ≤ disconnect` it GUARANTEES
+    `arr_nonneg` (`0 ≤ arrival`), `arrival ≤ departure`, and that session ids are the documents'
+    ids in order (so `ids_nodup` holds iff the documents' ids are distinct).  It does NOT guarantee
+    `arr_lt_dep`: a session inside one period is kept with `arrival = departure`
+    (`same_period_session_kept`); after filtering on `arrival < departure` — which by
+    `arrival_lt_departure_iff` drops exactly the same-period sessions (and everything when
+    `max_len = 0`) — `arr_lt_dep` holds.  Station non-overlap (`disjoint`) is a property of the data. -/
+theorem generate_events_vs_simulator_valid (start : K) (docs : List (Doc K)) (period V mp : K)
+    (maxLen : Option Int) (bp : BattParams K) (ff : Bool) (evs : List (Ev K)) (hp : 0 < period)
+    (hL : ∀ L, maxLen = some L → 0 ≤ L)
+    (hdocs : ∀ d ∈ docs, start ≤ d.connect ∧ d.connect ≤ d.disconnect)
+    (h : getEvs start docs period V mp maxLen bp ff = .ok evs) :
+    (∀ e ∈ evs, 0 ≤ e.arrival ∧ e.arrival ≤ e.departure) ∧
+    evs.map (·.session) = docs.map (·.session) ∧
+    evs.map (·.station) = docs.map (·.space) ∧
+    (∀ e ∈ evs.filter (fun e => decide (e.arrival < e.departure)), e.arrival < e.departure) := by
+  have hf := getEvs_ok hp h
+  have h60 : (0 : K) < 60 * period := by positivity
+  refine ⟨?_, ?_, ?_, ?_⟩
+  · intro e he
+    obtain ⟨d, hd, hde⟩ : ∃ d ∈ docs, convertDoc d (pyTrunc (start / (60 * period))) period V mp maxLen bp ff = .ok e := by
+      clear hdocs h
+      induction hf with
+      | nil => cases he
+      | cons hab _ ih =>
+        rcases List.mem_cons.mp he with h' | h'
+        · subst h'; exact ⟨_, List.mem_cons_self, hab⟩
+        · obtain ⟨d, hd, hde⟩ := ih h'; exact ⟨d, List.mem_cons_of_mem _ hd, hde⟩
+    obtain ⟨h1, h2⟩ := hdocs d hd
+    refine ⟨?_, order_preserving d _ period V mp maxLen bp ff e hp hL h2 hde⟩
+    obtain ⟨ha, -⟩ := convertDoc_ok hp hde
+    have := pyTrunc_mono (div_le_div_of_nonneg_right h1 h60.le)
+    rw [ha]; omega
+  · clear hdocs h
+    induction hf with
+    | nil => rfl
+    | cons hab _ ih =>
+      obtain ⟨-, -, -, hs, -⟩ := convertDoc_ok hp hab
+      simp only [List.map_cons, ih, hs]
+  · clear hdocs h
+    induction hf with
+    | nil => rfl
+    | cons hab _ ih =>
+      obtain ⟨-, -, -, -, hs, -⟩ := convertDoc_ok hp hab
+      simp only [List.map_cons, ih, hs]
+  · intro e he
+    have := (List.mem_filter.mp he).2
+    simpa using this
+
 /-! ### stochastic samples (`_convert_ev_matrix`) -/
 
 /-- A kept sample row (arrival `a` h, duration `d` h, energy) becomes a session with
@@ -527,6 +602,66 @@ theorem fit_capacity_minimal (hd : FitDomain caps mr ts tol E T V P) (hts0 : 0 <
     rw [sub_zero] at this
     rw [e]
     nlinarith
+
+/-- Maximal initial charge (what the comment in `_get_init_cap` promises: "the largest init_soc that
+    still allows for delta_soc to be delivered").  Write `taken i` for the SoC the battery
+    `(cap, i)` takes when charged at full rate for the stay.  For every answer `(cap, init)`:
+    (a) `init` itself takes the request up to `tol`;
+    (b) NO larger initial charge `i' ≤ cap` takes the request plus `tol`: every initial charge
+        that is feasible with margin `tol` is strictly below `init` — so `init` lies between the
+        largest `tol`-robustly feasible and the largest `tol`-nearly feasible initial charge;
+    (c) in the closed-form branch `init` is EXACTLY the largest feasible initial charge: it takes
+        exactly the request and every larger one takes strictly less;
+    (d) in the bisection branch `init` lies in the code's bracket, at or above
+        `(ts − m·T)·cap`, i.e. never inside the flat region below it where all initial charges take
+        the same energy.
+    (In SoC distance the bisection answer can be up to `√(2(1−ts)·tol)` above the exact maximiser
+    when the request equals the flat-region value — the curve has slope 0 there — which is why
+    (b) is stated in delivered energy, the quantity `binsearch` controls.) -/
+theorem fit_init_maximal (hd : FitDomain caps mr ts tol E T V P)
+    (h : battCapFn caps mr ts tol fuel E T V P = .ok (cap, init)) :
+    let taken := fun i : ℝ =>
+      flowSoc (fitM mr V P cap) (fitM mr V P cap / (1 - ts)) (i / cap) T - i / cap
+    E / cap - tol < taken init ∧
+    (∀ i', i' ≤ cap → E / cap + tol ≤ taken i' → i' < init) ∧
+    (ts ≤ (closedInitSoc mr ts E T V P cap).2.2 →
+      taken init = E / cap ∧ ∀ i', init < i' → i' ≤ cap → taken i' < E / cap) ∧
+    (¬ ts ≤ (closedInitSoc mr ts E T V P cap).2.2 → (ts - fitM mr V P cap * T) * cap ≤ init) := by
+  intro taken
+  obtain ⟨-, hc, -, -, s, hi, hs1, hflow, -, hcl⟩ := fit_main hd h
+  obtain ⟨s2, hi2, hb1, hb2⟩ := fit_bracket hd h
+  have hss : s2 = s := by
+    have : s2 * cap = s * cap := by rw [← hi, ← hi2]
+    exact mul_right_cancel₀ hc.ne' this
+  subst hss
+  have hm := fitM_pos hd.mr_pos hd.V_pos hd.P_pos hc
+  have hsi : init / cap = s2 := by rw [hi]; field_simp
+  have hT := hd.T_pos
+  have hts := hd.ts_lt
+  rw [abs_lt] at hflow
+  refine ⟨?_, ?_, ?_, ?_⟩
+  · show _ < flowSoc _ _ (init / cap) T - init / cap
+    rw [hsi]; linarith
+  · intro i' hi' hfeas
+    by_contra hnot
+    have hle : init ≤ i' := not_lt.mp hnot
+    have h1 : s2 ≤ i' / cap := by rw [← hsi]; exact div_le_div_of_nonneg_right hle hc.le
+    have h2 : i' / cap ≤ 1 := by rw [div_le_one hc]; exact hi'
+    have := taken_antitone hm hT hts h1 h2
+    have hf : E / cap + tol ≤ flowSoc (fitM mr V P cap) (fitM mr V P cap / (1 - ts)) (i' / cap) T - i' / cap := hfeas
+    linarith
+  · intro hclosed
+    have heq := (hcl hclosed).1
+    refine ⟨by show flowSoc _ _ (init / cap) T - init / cap = _; rw [hsi]; exact heq, ?_⟩
+    intro i' hlt hle
+    have h1 : s2 < i' / cap := by rw [← hsi]; exact div_lt_div_of_pos_right hlt hc
+    have h2 : i' / cap ≤ 1 := by rw [div_le_one hc]; exact hle
+    have := taken_strict_above_ts hm hT hts (hb1 hclosed) h1 h2
+    show flowSoc _ _ (i' / cap) T - i' / cap < _
+    linarith
+  · intro hn
+    have := hb2 hn
+    rw [hi]; nlinarith
 
 /-- the constants of the working tree (regenerated `Gen.Consts`) put every non-negative request
     with a positive stay, voltage and period into the fit's domain -/
